@@ -278,7 +278,7 @@ def replay(run, model, drv, path):
     """re-run the case(s) of a replay file: lines 'case: <line>' / 'replay: <line>'"""
     lines = []
     for ln in open(path):
-        m = re.match(r"(?:case|replay): ((?:oscx|oscun|oscderive|oscseq|oscmulti) .*)$", ln.strip())
+        m = re.match(r"(?:case|replay): ((?:oscx|oscun|oscderive|oscseq|oscmulti|oscproxy) .*)$", ln.strip())
         if m:
             lines.append(m.group(1))
     om, oc, _ = tie.run_both(model, drv, lines)
@@ -466,6 +466,31 @@ def main(run):
             if n_sq_bad <= 3:
                 run.violation(bad, "case: %s\nmodel: %s\nimpl : %s\n" % (ln, qm[k], qc[k]), tag="seq%d" % n_sq_bad)
     run.cov["sequences"] = {"cases": len(sq), "failures": n_sq_bad}
+    # ---------------------------------------------------------------- requests with Proxy-Uri
+    # libcoap splits the Proxy-Uri (coap_rebuild_pdu_for_proxy, what coap_send does on an OSCORE
+    # session) and protects; the reference protects the split computed from the URI's components
+    px = [(ln, "") for ln in corpus if ln.startswith("oscproxy ")]
+    px += [G.gen_proxy(r) for _ in range(60 if quick else 1500)]
+    pm, pc, _ = tie.run_both(model, drv, [p_[0] for p_ in px], timeout=3000)
+    n_px_bad = 0
+    for k, (ln, uri) in enumerate(px):
+        if not uri:
+            uri = bytes.fromhex(ln.split()[6]).decode("latin-1")
+        run.count(ln, pm[k].startswith("split="))
+        run.hist("proxy_uri_scheme", uri.split(":")[0])
+        if pm[k] != pc[k]:
+            n_px_bad += 1
+            if n_px_bad <= 3:
+                fm_, fc_ = fields(pm[k]), fields(pc[k])
+                sm_ = re.match(r"split=\[([^\]]*)\]", pm[k])
+                scx = re.match(r"split=\[([^\]]*)\]", pc[k])
+                what = ("request with Proxy-Uri %s: the message libcoap protects after splitting the URI is [%s], RFC 7252 6.4 / RFC 8613 4.1.3.3 give [%s]"
+                        % (uri, scx.group(1)[:200] if scx else pc[k][:80], sm_.group(1)[:200] if sm_ else "?"))
+                if scx and sm_ and scx.group(1) == sm_.group(1):
+                    what = "request with Proxy-Uri %s: protected bytes / result differ from the reference" % uri
+                run.violation(what, "case: %s\nuri  : %s\nmodel: %s\nimpl : %s\n" % (ln, uri, pm[k], pc[k]),
+                              tag="proxy%d" % n_px_bad)
+    run.cov["proxy_uri"] = {"cases": len(px), "failures": n_px_bad}
     # ---------------------------------------------------------------- re-spelled OSCORE options
     sv = []
     for ctxt, mode, dgh, info in tamper_jobs:
@@ -616,5 +641,5 @@ def main(run):
     stats["reference_disagreements"] = ndis
     run.cov["tamper"] = stats
     run.cov["evaluations"] += stats["variants"]
-    run.cov["disagreements"] = nbad + n_other_bad + n_sq_bad + n_sv_bad + nflip_bad + ndis
+    run.cov["disagreements"] = nbad + n_other_bad + n_px_bad + n_sq_bad + n_sv_bad + nflip_bad + ndis
     run.cov["corpus_cases"] = len(corpus)
